@@ -3,8 +3,9 @@ set_option linter.unusedSimpArgs false
 /-!
 # C18 — callback adapters fire exactly once with the right outcome
 
-Model: `CoclsModel/Callback.lean` (micro-step machines of `callback_await`, `make_promise`, `discard`, `future_conv`,
-`call_fn_future_awaiter` and the hand-subscribed `call_fn_awaiter` around one awaited operation); invariant: `CoclsModel/CallbackProofs.lean`.
+Model: `CoclsModel/Callback.lean` (micro-step machines of `callback_await`, `make_promise`, `future_with_cb::operator<<`,
+`discard`, `future_conv`, `call_fn_future_awaiter` and the hand-subscribed `call_fn_awaiter` around one awaited operation);
+invariant: `CoclsModel/CallbackProofs.lean`.
 
 Every theorem quantifies over **all** well-formed configurations `c` — adapter, converter behaviour and conversion
 function, outcome kinds, any number `c.n - 1` of promise invocations / destructor agents on other threads with arbitrary
@@ -12,8 +13,12 @@ kinds (`c.rk`), resolution inside the factory (`c.pre`: "already resolved at reg
 afterwards (`c.selfRes`) or by the other agents (concurrently) — and over **all** schedules (`Reach`: any list of agent
 ids, by induction).  Re-use of the member-object adapters for any number of successive operations (every combination of
 timings) is `c18_reuse_reach` / `c18_once_per_operation` at the end.  The allocator (heap / storage) only names where the helper block comes from: `allocs`/`frees`
-count blocks of whichever allocator was chosen.  `Pre c` = callbacks do not throw (the documented contract); it is
-needed exactly where the statement talks about the number of *callback* invocations of `callback_await`.
+count blocks of whichever allocator was chosen.
+
+No theorem carries a precondition on the user's code any more: a callback of `callback_await` may throw (`c.cbThrows`,
+any value) and the start of the awaited operation may throw (`c.startThrew`) — "exactly once, with the operation's outcome"
+holds all the same (`c18_once`, `c18_throwing_callback_once`, `c18_start_throws`).  What the pinned code did instead in these
+two situations, and in `future_with_cb::operator<<`, is kept as `astepAsIs` with one witness run each at the end.
 -/
 namespace Cocls.Callback
 
@@ -33,10 +38,9 @@ theorem allDone_iff (c : Cfg) (s : State) : allDone c s = true ↔ AllDone c s :
 section
 variable {c : Cfg} {s : State}
 
-theorem sawOf_length_le (hpre : Pre c) (p : Outcome) : (sawOf c p).length ≤ 1 := by
-  unfold Pre at hpre
+theorem sawOf_length_le (p : Outcome) : (sawOf c p).length ≤ 1 := by
   unfold sawOf cbAwaitSees
-  cases c.adapter <;> simp [hpre]
+  cases c.adapter <;> simp
 
 theorem convInOf_length_le (p : Outcome) : (convInOf c p).length ≤ 1 := by
   unfold convInOf
@@ -45,17 +49,17 @@ theorem convInOf_length_le (p : Outcome) : (convInOf c p).length ≤ 1 := by
   · simp
 
 /-- **At most once, always.**  In every reachable state the completion has run at most once, the converter was invoked
-at most once, the outer promise was resolved at most once, and (callbacks do not throw) the user callback was invoked
-at most once. -/
+at most once, the outer promise was resolved at most once, and the user callback was invoked at most once — whether or
+not it throws. -/
 theorem c18_at_most_once (hwf : c.WF) (hr : Reach c s) :
-    s.calls ≤ 1 ∧ s.convIn.length ≤ 1 ∧ s.outerSets ≤ 1 ∧ (Pre c → s.saw.length ≤ 1) := by
+    s.calls ≤ 1 ∧ s.convIn.length ≤ 1 ∧ s.outerSets ≤ 1 ∧ s.saw.length ≤ 1 := by
   have h := reach_inv hwf hr
   by_cases hu : s.tok = Tok.used
   · obtain ⟨_, h2, h3, _, h5⟩ := h.done_state hu
     refine ⟨by rw [h.calls_eq]; split <;> omega, by rw [h3]; exact convInOf_length_le _, by rw [h5]; split <;> omega, ?_⟩
-    intro hpre; rw [h2]; exact sawOf_length_le hpre _
+    rw [h2]; exact sawOf_length_le _
   · obtain ⟨h2, h3, _, h5⟩ := h.fresh_state hu
-    refine ⟨by rw [h.calls_eq]; split <;> omega, by simp [h3], by omega, fun _ => by simp [h2]⟩
+    refine ⟨by rw [h.calls_eq]; split <;> omega, by simp [h3], by omega, by simp [h2]⟩
 
 /-- at quiescence nobody holds the completion any more, and a resolved operation has been completed -/
 theorem quiescent_used (hwf : c.WF) (hr : Reach c s) (hd : AllDone c s) (hs : s.slot = Slot.ready) : s.tok = Tok.used := by
@@ -70,21 +74,27 @@ theorem quiescent_used (hwf : c.WF) (hr : Reach c s) (hd : AllDone c s) (hs : s.
   | slot => have := h.tok_slot.1 htok; rw [hs] at this; cases this
   | agent t => have := (h.tok_agent t).1 htok; rw [hall t] at this; simp [holds] at this
 
+/-- the adapters that invoke a user callback (the others, `discard` and `future_conv`, have a finaliser / a converter) -/
+def Adapter.hasCallback : Adapter → Bool
+  | Adapter.discard => false
+  | Adapter.conv => false
+  | _ => true
+
 /-- **Exactly once at quiescence.**  When all agents have finished and the awaited operation is resolved, the completion
-has run exactly once; the user callback of `callback_await` / `make_promise` / `call_fn_future_awaiter` / `call_fn_awaiter` was invoked
-exactly once and saw the operation's outcome (value, exception, or broken promise). -/
-theorem c18_once (hwf : c.WF) (hpre : Pre c) (hr : Reach c s) (hd : AllDone c s) (hs : s.slot = Slot.ready) :
+has run exactly once; the user callback of `callback_await` / `make_promise` / `future_with_cb::operator<<` /
+`call_fn_future_awaiter` / `call_fn_awaiter` was invoked exactly once and saw the operation's outcome (value, exception, or
+broken promise) — also when it throws (`c.cbThrows` is unconstrained) and when the operation failed at its start
+(`c.startThrew`). -/
+theorem c18_once (hwf : c.WF) (hr : Reach c s) (hd : AllDone c s) (hs : s.slot = Slot.ready) :
     s.calls = 1 ∧
-    (c.adapter = Adapter.cbAwait ∨ c.adapter = Adapter.mkProm ∨ c.adapter = Adapter.callFn ∨ c.adapter = Adapter.callAwt →
-      s.saw = [s.payload.obs]) ∧
+    (c.adapter.hasCallback = true → s.saw = [s.payload.obs]) ∧
     (c.adapter = Adapter.discard ∨ c.adapter = Adapter.conv → s.saw = []) := by
   have h := reach_inv hwf hr
   have hu := quiescent_used hwf hr hd hs
   obtain ⟨_, h2, _, _, _⟩ := h.done_state hu
-  unfold Pre at hpre
   refine ⟨by rw [h.calls_eq, if_pos hu], ?_, ?_⟩
   · intro ha; rw [h2]; unfold sawOf cbAwaitSees
-    rcases ha with ha | ha | ha | ha <;> simp [ha, hpre]
+    cases hc : c.adapter <;> simp [hc, Adapter.hasCallback] at ha ⊢
   · intro ha; rw [h2]; unfold sawOf
     rcases ha with ha | ha <;> simp [ha]
 
@@ -116,7 +126,7 @@ theorem c18_resolved_at_quiescence (hwf : c.WF) (hr : Reach c s) (hd : AllDone c
 
 /-- **Right outcome.**  Whatever a user callback was shown is the operation's (final) outcome: the future is resolved at
 that point and the observation is the resolved payload — the value, the exception, or "canceled" for a broken promise. -/
-theorem c18_outcome (hwf : c.WF) (hpre : Pre c) (hr : Reach c s) :
+theorem c18_outcome (hwf : c.WF) (hr : Reach c s) :
     ∀ o ∈ s.saw, s.slot = Slot.ready ∧ o = s.payload.obs := by
   have h := reach_inv hwf hr
   intro o ho
@@ -124,9 +134,8 @@ theorem c18_outcome (hwf : c.WF) (hpre : Pre c) (hr : Reach c s) :
   · obtain ⟨h1, h2, _⟩ := h.done_state hu
     refine ⟨h1, ?_⟩
     rw [h2] at ho
-    unfold Pre at hpre
     unfold sawOf cbAwaitSees at ho
-    cases ha : c.adapter <;> simp [ha, hpre] at ho <;> exact ho
+    cases ha : c.adapter <;> simp [ha] at ho <;> exact ho
   · rw [(h.fresh_state hu).1] at ho; cases ho
 
 /-- the resolved payload is the one supplied by the unique winner of the promise: the factory, an invocation (its
@@ -140,6 +149,15 @@ theorem c18_result_is_winners (hwf : c.WF) (hr : Reach c s) (hs : s.slot = Slot.
     | false => rfl
     | true => have := (h.own_t hown).2; rw [hw] at this; cases this
   exact ⟨(h.own_f ho).1, w, hw, hp⟩
+
+theorem compStep_keeps (c : Cfg) (s : State) (t k : Nat) (w : Who) :
+    (compStep c s t k w).1.slot = s.slot ∧ (compStep c s t k w).1.payload = s.payload := by
+  unfold compStep
+  cases k with
+  | succ k => simp [setPc]
+  | zero =>
+    cases w <;> simp [complete, retStep, contReg, claimStep, setPc]
+    cases c.selfRes <;> simp <;> split <;> simp
 
 /-- **The outcome is final.**  Once the operation is resolved no step of any agent changes the slot or the payload any
 more: what a callback was shown (`c18_outcome`) stays the operation's outcome. -/
@@ -159,6 +177,9 @@ theorem c18_result_stable (hwf : c.WF) (hr : Reach c s) (t : Nat) (hs : s.slot =
       rw [hwf.mkp ha, hs] at this; simp at this
     simp only; unfold startStep
     cases ha : c.adapter <;> simp [ha, hs, casStep, prep, setPc, h.nxt_null, Adapter.allocates] at hnm ⊢
+    split
+    · exact ⟨(compStep_keeps c _ 0 0 Who.reg).1, (compStep_keeps c _ 0 0 Who.reg).2⟩
+    · exact ⟨rfl, rfl⟩
   | gCas => simp only; unfold casStep; simp [setPc, hs, h.nxt_null]
   | gParked => simp only; unfold contReg claimStep; cases c.selfRes <;> simp [setPc, hs] <;> split <;> simp [hs]
   | rArrive => simp only; unfold claimStep; split <;> (try split) <;> simp [setPc, hs]
@@ -176,12 +197,8 @@ theorem c18_result_stable (hwf : c.WF) (hr : Reach c s) (t : Nat) (hs : s.slot =
   | dBlocked => simp only; unfold dtorStep; split <;> simp [setPc, hs]
   | dFin => simp [setPc, hs]
   | comp k w =>
-    simp only; unfold compStep
-    cases k with
-    | succ k => simp [setPc, hs]
-    | zero =>
-      cases w <;> simp [complete, retStep, contReg, claimStep, setPc, hs]
-      cases c.selfRes <;> simp [hs] <;> split <;> simp [hs]
+    simp only
+    exact ⟨(compStep_keeps c s t k w).1.trans hs, (compStep_keeps c s t k w).2⟩
 
 /-- **Helper block released exactly once, afterwards.**  At most one block is ever allocated (none by the member-object
 adapters), it is released at most once, never before the completion has run, … -/
@@ -248,11 +265,12 @@ theorem c18_single_holder (hwf : c.WF) (hr : Reach c s) :
       | true => have := (h.tok_agent t).2 hh; rw [hu] at this; cases this
 
 /-- **Already resolved at registration.**  When the registrar finds the future resolved — `ready()` says yes
-(`callback_await`) or the subscribing CAS is refused (all others, and `callback_await` after a late resolution) — it
-takes the completion itself: it is now the one holder (`comp … reg`), nothing was parked in the slot, and by
-`c18_single_holder` / `c18_once` it runs the completion exactly once. -/
+(`callback_await`) or the subscribing CAS is refused (all others, `future_with_cb::operator<<` among them, and
+`callback_await` after a late resolution) — it takes the completion itself: it is now the one holder (`comp … reg`),
+nothing was parked in the slot, and by `c18_single_holder` / `c18_once` it runs the completion exactly once.
+(`callback_await` whose operation threw at its start has no future to ask: `c18_start_throws_inline`.) -/
 theorem c18_already_resolved (hwf : c.WF) (hr : Reach c s) (hs : s.slot = Slot.ready)
-    (hpc : s.pc 0 = Pc.gStart ∨ s.pc 0 = Pc.gCas) :
+    (hpc : s.pc 0 = Pc.gStart ∨ s.pc 0 = Pc.gCas) (hnt : c.adapter = Adapter.cbAwait → c.startThrew = false) :
     (astep c s 0).1.pc 0 = Pc.comp (nloads c s.payload) Who.reg ∧ (astep c s 0).1.tok = Tok.agent 0
       ∧ (astep c s 0).1.slot = Slot.ready ∧ (astep c s 0).1.calls = s.calls := by
   have h := reach_inv hwf hr
@@ -264,9 +282,33 @@ theorem c18_already_resolved (hwf : c.WF) (hr : Reach c s) (hs : s.slot = Slot.r
       rw [hwf.mkp ha, hs] at this; simp at this
     unfold astep; rw [hp]; simp only
     unfold startStep
-    cases ha : c.adapter <;> simp [ha, hs, casStep, prep, setPc, htok, h.nxt_null, Adapter.allocates] at hnm ⊢
+    cases ha : c.adapter <;> simp [ha, hs, casStep, prep, setPc, htok, h.nxt_null, Adapter.allocates] at hnm hnt ⊢
+    simp [hnt]
   · unfold astep; rw [hp]; simp only
     unfold casStep; simp [setPc, htok, hs, h.nxt_null]
+
+/-- **The start of the awaited operation threw (`callback_await`).**  The awaitable is constructed inside the helper's try
+block: within the registrar's first segment — no operation on a shared atomic in between — the callback is called once
+with the exceptional state and the frame is released. -/
+theorem c18_start_throws_inline (hwf : c.WF) (hr : Reach c s) (hs : s.slot = Slot.ready) (hpc : s.pc 0 = Pc.gStart)
+    (ha : c.adapter = Adapter.cbAwait) (ht : c.startThrew = true) :
+    (astep c s 0).1.calls = 1 ∧ (astep c s 0).1.saw = [s.payload.obs] ∧ (astep c s 0).1.tok = Tok.used
+      ∧ (astep c s 0).1.allocs = 1 ∧ (astep c s 0).1.frees = 1
+      ∧ (astep c s 0).2 = prepEvs c s ++ [Ev.cb s.payload.obs, Ev.free] ++ (contReg c (setPc (complete c (setPc (prep c s) 0 (Pc.comp 0 Who.reg))).1 0 Pc.gParked)).2 := by
+  have h := reach_inv hwf hr
+  have htok : s.tok = Tok.agent 0 := (h.tok_agent 0).2 (by simp [hpc, holds])
+  obtain ⟨f1, _, _, _⟩ := h.fresh_state (by simp [htok])
+  have hc : s.calls = 0 := by rw [h.calls_eq]; simp [htok]
+  have hal : s.allocs = 0 := by rw [h.allocs_eq]; simp [hpc]
+  have hfr : s.frees = 0 := by rw [h.frees_eq]; simp [htok]
+  unfold astep; rw [hpc]; simp only
+  unfold startStep
+  simp only [ha, hs, ht, if_true]
+  unfold compStep
+  simp only [afterPc]
+  cases hsr : c.selfRes <;>
+    simp [contReg, claimStep, complete, prep, setPc, hsr, ha, sawOf, cbAwaitSees, convInOf, Adapter.allocates, f1, hc, hal, hfr]
+  split <;> simp [f1, hc, hal, hfr]
 
 /-- **Parked, then resumed by the resolver.**  A successful subscription parks the completion in the slot; the one
 exchange that finds it there (`resolve()` of the winner) hands it to that agent, who then holds it alone. -/
@@ -465,22 +507,21 @@ theorem c18_reuse_reach (ops : List OpRun) (hwf : ∀ o ∈ ops, o.c.WF) :
 combination of timings: each operation that has finished and is resolved ran its completion exactly once, showed its
 callback exactly that operation's outcome, delivered exactly `convRes` of that operation's outcome to that operation's
 outer future, and released what it allocated. -/
-theorem c18_once_per_operation (ops : List OpRun) (hwf : ∀ o ∈ ops, o.c.WF ∧ Pre o.c) :
+theorem c18_once_per_operation (ops : List OpRun) (hwf : ∀ o ∈ ops, o.c.WF) :
     Pointwise (fun o s => AllDone o.c s → s.slot = Slot.ready →
         s.calls = 1 ∧ s.frees = s.allocs ∧
-        (o.c.adapter = Adapter.cbAwait ∨ o.c.adapter = Adapter.mkProm ∨ o.c.adapter = Adapter.callFn ∨ o.c.adapter = Adapter.callAwt →
-          s.saw = [s.payload.obs]) ∧
+        (o.c.adapter.hasCallback = true → s.saw = [s.payload.obs]) ∧
         (o.c.adapter = Adapter.conv → s.outer = some (convRes o.c s.payload) ∧ s.outerSets = 1))
       ops (runOps Slot.null ops) := by
-  have hr := c18_reuse_reach ops (fun o ho => (hwf o ho).1)
+  have hr := c18_reuse_reach ops hwf
   generalize runOps Slot.null ops = ss at hr
   induction hr with
   | nil => exact Pointwise.nil
   | @cons o s os ss' h _ ih =>
     refine Pointwise.cons ?_ (ih (fun o' ho' => hwf o' (by simp [ho'])))
     intro hd hs
-    obtain ⟨hw, hp⟩ := hwf o (by simp)
-    have h1 := c18_once hw hp h hd hs
+    have hw := hwf o (by simp)
+    have h1 := c18_once hw h hd hs
     exact ⟨h1.1, (c18_helper_freed_at_quiescence hw h hd hs).1, h1.2.1,
       fun ha => (c18_conv_outcome hw h ha).2.2 hd hs⟩
 
@@ -522,15 +563,157 @@ theorem c18_static_ref_asis_witness :
     readBack SrcFlavour.refPromise (storedState true SrcFlavour.refPromise) 10 764171228 = some 10 := by
   decide
 
-/-! ## Why `Pre` is needed: a throwing callback is invoked twice by `callback_await_coro` (documented contract) -/
+/-! ## A throwing callback, a throwing start, `future_with_cb::operator<<`: the repaired behaviour, and the pinned code
+
+Three defects of the pinned headers were repaired in /repo; the theorems above are about the repaired steps and need no
+precondition.  The corollaries below spell the three situations out; `astepAsIs` / `runAsIs` (`Callback.lean`) keep the
+pinned steps, and each witness shows "exactly once, and the block released once" failing for them on a concrete run. -/
+
+section
+variable {c : Cfg} {s : State}
+
+/-- **A callback that throws is still called exactly once** (`callback_await`): whatever exception `e` the callback throws
+after it was handed the outcome, at quiescence it has been invoked once, with the operation's outcome — never a second time
+with its own exception — and the frame was released once. -/
+theorem c18_throwing_callback_once (hwf : c.WF) (hr : Reach c s) (hd : AllDone c s) (hs : s.slot = Slot.ready)
+    (ha : c.adapter = Adapter.cbAwait) (e : Nat) (_hthrow : c.cbThrows = some e) :
+    s.calls = 1 ∧ s.saw = [s.payload.obs] ∧ s.allocs = 1 ∧ s.frees = 1 := by
+  have h1 := c18_once hwf hr hd hs
+  have h2 := c18_helper_freed_at_quiescence hwf hr hd hs
+  have hal : c.adapter.allocates = true := by simp [ha, Adapter.allocates]
+  exact ⟨h1.1, h1.2.1 (by simp [ha, Adapter.hasCallback]), by rw [← h2.1]; exact h2.2 hal, h2.2 hal⟩
+
+/-- **The start of the awaited operation throws** exception `e` (`c.pre = exc e`, `c.startThrew`: the factory / the
+constructor of the awaitable throws instead of returning): the operation's outcome is that exception, and at quiescence
+the completion has run exactly once with it — the callback of `callback_await` / `future_with_cb::operator<<` /
+`call_fn_future_awaiter` saw `exc e`, the outer future of a converter holds `exc e` and the converter was not run — and
+what was allocated has been released.  No agent can change the outcome (the promise, if any, is already spent). -/
+theorem c18_start_throws (hwf : c.WF) (hr : Reach c s) (hd : AllDone c s) (e : Nat) (hp : c.pre = some (RK.exc e)) :
+    s.slot = Slot.ready ∧ s.payload = Outcome.exc e ∧ s.calls = 1 ∧ s.frees = s.allocs ∧
+    (c.adapter.hasCallback = true → s.saw = [Obs.exc e]) ∧
+    (c.adapter = Adapter.conv → c.convReads = true → s.outer = some (OuterRes.exc e) ∧ s.convIn = []) := by
+  have h := reach_inv hwf hr
+  have hs : s.slot = Slot.ready := h.pre_ready (by simp [hp])
+  have hw : s.winner = some Win.factory := h.pre_winner (by simp [hp])
+  obtain ⟨w, hw', _, hpay⟩ := h.ready_phase hs
+  rw [hw] at hw'; injection hw' with hw'; subst hw'
+  have hpay' : s.payload = Outcome.exc e := by rw [hpay]; simp [winPayload, hp, RK.payload]
+  have h1 := c18_once hwf hr hd hs
+  refine ⟨hs, hpay', h1.1, (c18_helper_freed_at_quiescence hwf hr hd hs).1, ?_, ?_⟩
+  · intro hcb; rw [h1.2.1 hcb, hpay']; rfl
+  · intro ha hrd
+    have hu := quiescent_used hwf hr hd hs
+    obtain ⟨_, _, h3, h4, _⟩ := h.done_state hu
+    rw [h4, h3, hpay', outerOf, if_pos ha, convInOf, if_pos ha, (c18_conv_source_exception hrd e).1, (c18_conv_source_exception hrd e).2]
+    exact ⟨rfl, rfl⟩
+
+/-- **`future_with_cb::operator<<`**: the callback is registered on the re-created future — parked in its slot by the
+subscribing CAS, or, when that future is already resolved, run by the registrar at once (`c18_already_resolved`) — and at
+quiescence it has been called exactly once with the operation's outcome and the object has been released exactly once. -/
+theorem c18_lshift_once (hwf : c.WF) (hr : Reach c s) (hd : AllDone c s) (hs : s.slot = Slot.ready)
+    (ha : c.adapter = Adapter.mkCb) :
+    s.calls = 1 ∧ s.saw = [s.payload.obs] ∧ s.allocs = 1 ∧ s.frees = 1 := by
+  have h1 := c18_once hwf hr hd hs
+  have h2 := c18_helper_freed_at_quiescence hwf hr hd hs
+  have hal : c.adapter.allocates = true := by simp [ha, Adapter.allocates]
+  exact ⟨h1.1, h1.2.1 (by simp [ha, Adapter.hasCallback]), by rw [← h2.1]; exact h2.2 hal, h2.2 hal⟩
+
+/-- its registration step: one subscribing CAS on the re-created future's slot (expected value null: the node is fresh),
+which parks the object — nobody else holds the completion then -/
+theorem c18_lshift_registers (hwf : c.WF) (hr : Reach c s) (hpc : s.pc 0 = Pc.gStart) (ha : c.adapter = Adapter.mkCb)
+    (hs : s.slot = Slot.null) :
+    (astep c s 0).1.slot = Slot.node ∧ (astep c s 0).1.tok = Tok.slot ∧ (astep c s 0).1.pc 0 = Pc.gParked
+      ∧ (astep c s 0).2 = prepEvs c s ++ [Ev.opCas 0 true Slot.null] := by
+  have h := reach_inv hwf hr
+  unfold astep; rw [hpc]; simp only
+  unfold startStep
+  simp [ha, hs, casStep, prep, setPc, h.nxt_null, Adapter.allocates]
+
+/-- the pinned steps differ from the repaired ones in exactly the three repaired situations: for every other
+configuration `astepAsIs` *is* `astep` -/
+theorem c18_asis_differs_only (t : Nat) (hm : c.adapter ≠ Adapter.mkCb)
+    (hcb : c.adapter = Adapter.cbAwait → c.cbThrows = none ∧ c.startThrew = false) :
+    astepAsIs c s t = astep c s t := by
+  have hsaw : ∀ p, sawOfAsIs c p = sawOf c p := by
+    intro p
+    unfold sawOfAsIs
+    cases ha : c.adapter <;> simp
+    simp [sawOf, ha, cbAwaitSees, cbAwaitSeesAsIs, (hcb ha).1]
+  unfold astepAsIs astep
+  cases hpc : s.pc t <;> simp only
+  · unfold startStepAsIs
+    cases ha : c.adapter <;> simp [ha] at hm ⊢
+    simp [(hcb ha).2]
+  · unfold compStepAsIs compStep completeAsIs complete
+    simp only [hsaw]
+
+end
 
 def throwingCb : Cfg :=
   { adapter := Adapter.cbAwait, n := 2, rk := fun _ => some (RK.value 42), cbThrows := some 88 }
 
-theorem c18_throwing_callback_called_twice :
-    let s := run throwingCb (init throwingCb) [0, 0, 0, 1, 1, 1]
-    allDone throwingCb s = true ∧ s.calls = 1 ∧ s.saw = [Obs.val 42, Obs.exc 88] ∧ s.frees = 1 := by
+/-- AS-IS witness for /repo 963fa92 ("fix: callback_await called the callback a second time when it threw"): on the pinned
+step the callback, which throws after it received the value 42, is invoked a second time — with an exceptional state
+carrying its own exception 88 — for one awaited operation -/
+theorem c18_throwing_callback_asis_witness :
+    let s := runAsIs throwingCb (init throwingCb) [0, 0, 0, 1, 1, 1]
+    allDone throwingCb s = true ∧ s.slot = Slot.ready ∧ s.payload = Outcome.val 42 ∧ s.calls = 1
+      ∧ s.saw = [Obs.val 42, Obs.exc 88] ∧ s.frees = 1 := by
   decide
+
+/-- the same run on the repaired step: called once, with the value -/
+theorem c18_throwing_callback_fixed_witness :
+    let s := run throwingCb (init throwingCb) [0, 0, 0, 1, 1, 1]
+    throwingCb.WF ∧ allDone throwingCb s = true ∧ s.slot = Slot.ready ∧ s.calls = 1 ∧ s.saw = [Obs.val 42] ∧ s.frees = 1 := by
+  refine ⟨⟨by decide, by decide⟩, ?_⟩
+  decide
+
+def throwingStart : Cfg :=
+  { adapter := Adapter.cbAwait, n := 1, rk := fun _ => none, pre := some (RK.exc 6), startThrew := true }
+
+/-- AS-IS witness for /repo 42a8746 ("fix: callback_await lost the completion when starting the awaited operation
+threw"): on the pinned step the registration returns normally, the frame is released, and the callback registered for the
+operation — whose outcome is exception 6 — is never called -/
+theorem c18_start_throws_asis_witness :
+    let s := runAsIs throwingStart (init throwingStart) [0]
+    allDone throwingStart s = true ∧ s.slot = Slot.ready ∧ s.payload = Outcome.exc 6 ∧ s.calls = 0 ∧ s.saw = []
+      ∧ s.allocs = 1 ∧ s.frees = 1
+      ∧ (astepAsIs throwingStart (init throwingStart) 0).2 = [Ev.alloc, Ev.free, Ev.fin 0] := by
+  decide
+
+/-- the same run on the repaired step: the callback receives the exception, within the registration, then the frame goes -/
+theorem c18_start_throws_fixed_witness :
+    let s := run throwingStart (init throwingStart) [0]
+    throwingStart.WF ∧ allDone throwingStart s = true ∧ s.calls = 1 ∧ s.saw = [Obs.exc 6] ∧ s.allocs = 1 ∧ s.frees = 1
+      ∧ (astep throwingStart (init throwingStart) 0).2 = [Ev.alloc, Ev.cb (Obs.exc 6), Ev.free, Ev.fin 0] := by
+  refine ⟨⟨by decide, by decide⟩, ?_⟩
+  decide
+
+def lshiftCb : Cfg :=
+  { adapter := Adapter.mkCb, n := 2, rk := fun _ => some (RK.value 5) }
+
+/-- AS-IS witness for /repo edcba93 ("fix: future_with_cb::operator<< lost the callback"): on the pinned step nothing is
+subscribed to the re-created future; the resolver's exchange finds an empty slot, the callback is never called and the
+object never released — also when the future is already resolved at `<<` (second run) -/
+theorem c18_lshift_asis_witness :
+    (let s := runAsIs lshiftCb (init lshiftCb) [0, 0, 1, 1, 1]
+     allDone lshiftCb s = true ∧ s.slot = Slot.ready ∧ s.payload = Outcome.val 5 ∧ s.calls = 0 ∧ s.saw = []
+       ∧ s.allocs = 1 ∧ s.frees = 0) ∧
+    (let c : Cfg := { adapter := Adapter.mkCb, n := 1, rk := fun _ => none, pre := some (RK.value 5) }
+     let s := runAsIs c (init c) [0]
+     allDone c s = true ∧ s.slot = Slot.ready ∧ s.calls = 0 ∧ s.saw = [] ∧ s.allocs = 1 ∧ s.frees = 0) := by
+  decide
+
+/-- the same two runs on the repaired step: parked and resumed by the resolver / called at once by the registrar; one
+call with the value, the object released once -/
+theorem c18_lshift_fixed_witness :
+    (let s := run lshiftCb (init lshiftCb) [0, 0, 1, 1, 1]
+     lshiftCb.WF ∧ allDone lshiftCb s = true ∧ s.calls = 1 ∧ s.saw = [Obs.val 5] ∧ s.allocs = 1 ∧ s.frees = 1) ∧
+    (let c : Cfg := { adapter := Adapter.mkCb, n := 1, rk := fun _ => none, pre := some (RK.value 5) }
+     let s := run c (init c) [0, 0]
+     c.WF ∧ allDone c s = true ∧ s.calls = 1 ∧ s.saw = [Obs.val 5] ∧ s.allocs = 1 ∧ s.frees = 1
+       ∧ (astep c (init c) 0).2 = [Ev.alloc, Ev.opCas 0 false Slot.ready]) := by
+  refine ⟨⟨⟨by decide, by decide⟩, ?_⟩, ⟨⟨by decide, by decide⟩, ?_⟩⟩ <;> decide
 
 /-! ## Non-vacuity: the hypotheses are met by non-trivial reachable states -/
 
